@@ -127,6 +127,83 @@ theorem C10_dependence_array_unfolds (lhs x : Nat) (m : Int) (ts : List (Nat × 
 example : (addDepN 7 [(1, 2), (2, 0), (1, -3)]).ops = [(2, 1), (-3, 1)] ∧
     termSum [(1, 2), (2, 0), (1, -3)] [0, 5, 9] = -5 := by decide
 
+/-- The pointer-and-count forms `Stack::independent(const A* x, n)` / `dependent(const A* x, n)` are the scalar forms called on
+    `x[0] … x[n-1]` in that order, for every `n`; `n = 0` changes nothing; each touches its own list only. -/
+theorem C10_lists_array_is_repeated (s : St) (idxs : List Nat) :
+    s.independentN idxs = idxs.foldl (fun s i => { s with indep := s.indep ++ [i] }) s ∧
+    s.dependentN idxs = idxs.foldl (fun s i => { s with dep := s.dep ++ [i] }) s ∧
+    s.independentN [] = s ∧ s.dependentN [] = s ∧
+    (s.independentN idxs).dep = s.dep ∧ (s.dependentN idxs).indep = s.indep ∧
+    (s.independentN idxs).tape = s.tape ∧ (s.dependentN idxs).tape = s.tape := by
+  refine ⟨?_, ?_, by simp [St.independentN], by simp [St.dependentN], rfl, rfl, rfl, rfl⟩
+  · induction idxs generalizing s with
+    | nil => simp [St.independentN]
+    | cons i rest ih => simp only [List.foldl_cons]; rw [← ih]; simp [St.independentN, List.append_assoc]
+  · induction idxs generalizing s with
+    | nil => simp [St.dependentN]
+    | cons i rest ih => simp only [List.foldl_cons]; rw [← ih]; simp [St.dependentN, List.append_assoc]
+
+/-- The free function `set_gradients(Active* a, n, data)`: when no element raises, it is exactly the `n` scalar `set_gradient`
+    calls in order (so every statement about `seedAll` — `C10_pass_pure_fwd/rev` — is a statement about it). -/
+theorem C10_set_gradients_array_is_seeds (s : St) (seeds : List (Nat × Int)) (h : (s.seedN seeds).2 = none) :
+    (s.seedN seeds).1 = seedAll s seeds := by
+  induction seeds generalizing s with
+  | nil => rfl
+  | cons p rest ih =>
+    simp only [seedAll, List.foldl_cons]
+    unfold St.seedN at h ⊢
+    cases hs : s.seed p.1 p.2 with
+    | mk s' o =>
+      cases o with
+      | none => simp only [hs] at h ⊢; exact ih s' h
+      | some e => simp [hs] at h
+
+/-- … and when an element raises, the loop ends there: the result is that of the scalar calls up to and including the failing one
+    (the elements before it stay seeded), and the exception is the scalar call's. -/
+theorem C10_set_gradients_array_stops (s : St) (pre post : List (Nat × Int)) (p : Nat × Int) (e : Exc)
+    (hpre : (s.seedN pre).2 = none) (hp : ((seedAll s pre).seed p.1 p.2).2 = some e) :
+    s.seedN (pre ++ p :: post) = (seedAll s (pre ++ [p]), some e) := by
+  induction pre generalizing s with
+  | nil =>
+    simp only [List.nil_append, seedAll, List.foldl_cons, List.foldl_nil] at hp ⊢
+    unfold St.seedN
+    cases hs : s.seed p.1 p.2 with
+    | mk s' o => simp only [hs] at hp; subst hp; rfl
+  | cons q rest ih =>
+    unfold St.seedN at hpre
+    simp only [List.cons_append, seedAll, List.foldl_cons] at hp ⊢
+    unfold St.seedN
+    cases hs : s.seed q.1 q.2 with
+    | mk s' o =>
+      cases o with
+      | none => simp only [hs] at hpre hp ⊢; exact ih s' hpre hp
+      | some e' => simp [hs] at hpre
+
+/-- The free function `get_gradients(const Active* a, n, data)`: it succeeds exactly with the results of the `n` scalar
+    `get_gradient` calls, element by element. -/
+theorem C10_get_gradients_array (s : St) (idxs : List Nat) (gs : List Int) (h : s.getGradN idxs = .ok gs) :
+    List.Forall₂ (fun i g => s.getGrad i = .ok g) idxs gs := by
+  induction idxs generalizing gs with
+  | nil => unfold St.getGradN at h; cases h; exact .nil
+  | cons i rest ih =>
+    unfold St.getGradN at h
+    cases hg : s.getGrad i with
+    | error e => simp [hg] at h
+    | ok g =>
+      cases hr : s.getGradN rest with
+      | error e => simp [hg, hr] at h
+      | ok gs' =>
+        simp only [hg, hr] at h
+        cases h
+        exact .cons hg (ih gs' hr)
+
+/-- non-vacuity: three seeds at once on a fresh two-gradient stack succeed; with an index out of range the call raises after the
+    first seed took effect -/
+example : (({ ga := { maxGrad := 2 } } : St).seedN [(0, 3), (1, -1), (0, 4)]).2 = none ∧
+    (({ ga := { maxGrad := 2 } } : St).seedN [(0, 3), (1, -1), (0, 4)]).1.grad = [4, -1] ∧
+    (({ ga := { maxGrad := 2 } } : St).seedN [(0, 3), (5, 1), (1, 1)]).2 = some .gradient_out_of_range ∧
+    (({ ga := { maxGrad := 2 } } : St).seedN [(0, 3), (5, 1), (1, 1)]).1.grad = [3, 0] := by decide
+
 /-! Non-vacuity of `C10_pause_noop`: a paused pausable stack with one live variable. -/
 example : ∃ s : St, s.cfg.pausable = true ∧ s.recording = false ∧
     (s.assign 0 ⟨0, 2⟩ (.mul (.v 0) (.c 3))).isSome = true :=
